@@ -16,11 +16,11 @@ import (
 // around the code capacity.  The budget oracles apply to every run; the closed form of big-body to both runs.
 
 type LazyCase struct {
-	Fam  string  `json:"fam"`
+	Fam string `json:"fam"`
 	// How: func | computed | host (GlobalValueLoadFunc hands out a fresh computed value at every load) |
 	// native (a host function hn() that evaluates the body with ctx.RunExpr while the program runs) |
 	// runexpr (the program itself is evaluated with vm.RunExpr instead of vm.Run)
-	How string `json:"how"`
+	How  string  `json:"how"`
 	N    int     `json:"n"`
 	M    int     `json:"m,omitempty"`
 	Runs int     `json:"runs,omitempty"` // evaluations of the program on the same VM (default 1)
